@@ -79,5 +79,20 @@ add("C16", "exploration",
     "Label matching asserted in one direction only; reference-vs-inline only when the reference form resolves (the converse asymmetry is counted).",
     "property-based testing (Hypothesis; constructive definition/label/triple generators); oracle: metamorphic relation (seed == prepend), reference model of definition bookkeeping, differential reference-form vs inline-form",
     "DESIGN.md section 4, C16")
+add("C17", "exploration",
+    "Five metamorphic relations over generated documents (LF vs CRLF/CR/mixed; NUL vs U+FFFD and no NUL/CR in any output string; leading tabs vs column-exact spaces; structural blank runs, decided by a probe parse, respelled with column-equivalent tabs in multi-line documents) plus COMPLETE enumeration of all one-line documents of <=2 container segments x 15 leaves x every tab spelling vs the all-space spelling (about 9.7e5 pairs, every run); 3-segment lines sampled.",
+    "Tab relations compare after the exemptions the property grants (blank runs in verbatim content, code spans, blanks after line breaks in other strings); exhaustiveness is claimed only for the enumerated <=2-segment sub-space.",
+    "property-based testing (Hypothesis) + bounded-exhaustive enumeration; oracle: metamorphic equivalence of encodings",
+    "DESIGN.md section 4, C17")
+add("C18", "exploration",
+    "Generated search with three clauses: single-paragraph sources (decided on the block parse) vs parseInline/renderInline; one-line inline texts embedded in heading/bullet/ordered/quote/table-cell contexts under the stated guards vs the paragraph (content, children, HTML); all documents x 16 combinations of the renderer-only options x presets: equal tokens, and exact HTML relations (void spelling, soft breaks, fence class prefix, highlight calls and body) on nonce-substituted copies of the stream.",
+    "Nonces are chosen not to occur in the source; contexts need 4 nesting levels, so maxNesting < 10 is lifted for that clause.",
+    "property-based testing (Hypothesis); oracle: differential (paragraph vs inline mode vs block contexts) + metamorphic option relations",
+    "DESIGN.md section 4, C18")
+add("C19", "exploration",
+    "Generated documents dense in typographic triggers x {replacements, smartquotes, both} x quotes values x presets; streams are snapshotted right before text_join (through a core rule added via the public API) and at the end, typographer off vs on: identical shape and identical non-text/autolink-text content, smartquotes-only text must full-match the off text as a quote-substitution pattern; plus escape-spelling vs numeric-reference spelling of protected characters must render identically with the typographer on.",
+    "The replacements rule itself is not re-implemented: what it may do to plain text is unconstrained, what it must not touch is checked.",
+    "property-based testing (Hypothesis); oracle: differential typographer on/off with structural invariants + metamorphic escape==entity relation",
+    "DESIGN.md section 4, C19")
 ALL = ["C%02d" % i for i in range(1, 21)]
 NA = [{"property_id": p, "reason": "check under construction in this round; not claimed until its oracle is built and shown quiet on the unchanged tree"} for p in ALL if p not in CHECKS]
